@@ -51,9 +51,88 @@ type History struct {
 	SavePass []byte `json:"save_pass"` // passphrase the base file was saved under
 	BaseFile []byte `json:"base_file"` // the file text produced by the real code (replayed verbatim); empty = make a new one
 	Mut      Mut    `json:"mut"`
-	Op       string `json:"op"`   // load | export | export-import | create-load
+	Op       string `json:"op"`   // load | export | export-import (import into Target, then load) | create-load
 	Pass     []byte `json:"pass"` // passphrase given to the operation
 	Pass2    []byte `json:"pass2,omitempty"`
+	Target   Target `json:"target,omitempty"` // export-import: what is at the import path before ImportPrivateKey runs
+}
+
+// Target describes the directory ImportPrivateKey writes into.  Kind "" / "fresh" = an empty directory.
+type Target struct {
+	Kind string `json:"kind,omitempty"` // fresh | current-same-pass | current-other-pass | legacy | salt-removed | corrupted | truncated | empty-file | json-empty-object | json-null | unrelated-files | source-path
+	File []byte `json:"file,omitempty"` // text of the pre-existing signer.json (replayed verbatim)
+}
+
+var targetKinds = []string{"fresh", "current-same-pass", "current-other-pass", "legacy", "salt-removed", "corrupted", "truncated", "empty-file", "json-empty-object", "json-null", "unrelated-files", "source-path"}
+
+// genTarget fills in a pre-existing file of the given kind from the bases of the run; it may set Pass2
+// (current-same-pass: the import passphrase is the one the existing file was saved under).
+func genTarget(r *rand.Rand, kind string, h *History, bases []*baseInfo) {
+	var cur, leg []*baseInfo
+	for _, b := range bases {
+		if len(b.salt) > 0 {
+			cur = append(cur, b)
+		} else {
+			leg = append(leg, b)
+		}
+	}
+	h.Target = Target{Kind: kind}
+	if len(cur) == 0 || len(leg) == 0 {
+		h.Target.Kind = "fresh"
+		return
+	}
+	c := cur[r.Intn(len(cur))]
+	switch kind {
+	case "current-same-pass":
+		h.Target.File = cp(c.text)
+		h.Pass2 = cp(c.pass)
+	case "current-other-pass":
+		h.Target.File = cp(c.text)
+	case "legacy":
+		h.Target.File = cp(leg[r.Intn(len(leg))].text)
+	case "salt-removed":
+		t, err := file.VerifC19MarshalKeyData(c.ct, c.nonce, c.pub, nil)
+		if err != nil {
+			panic(err)
+		}
+		h.Target.File = t
+	case "corrupted":
+		t := cp(c.text)
+		pos := r.Intn(len(t))
+		t[pos] = byte(substByte(r, r.Intn(3), t[pos]))
+		h.Target.File = t
+	case "truncated":
+		h.Target.File = cp(c.text[:r.Intn(len(c.text))])
+	case "empty-file":
+		h.Target.File = []byte{}
+	case "json-empty-object":
+		h.Target.File = []byte("{}")
+	case "json-null":
+		h.Target.File = []byte("null")
+	}
+}
+
+// prepareTarget builds the directory ImportPrivateKey is pointed at. srcDir = the directory holding the file
+// the key was exported from (kind source-path: import over that very file, the in-place migration).
+func prepareTarget(tg Target, srcDir string) (dir string, cleanup func(), err error) {
+	if tg.Kind == "source-path" {
+		return srcDir, func() {}, nil
+	}
+	dir, err = os.MkdirTemp("", "c19-imp-")
+	if err != nil {
+		return "", nil, err
+	}
+	cleanup = func() { os.RemoveAll(dir) }
+	switch tg.Kind {
+	case "", "fresh":
+	case "unrelated-files":
+		_ = os.WriteFile(filepath.Join(dir, "signer.json.bak"), []byte("{\"salt\":\"\"}"), 0o600)
+		_ = os.WriteFile(filepath.Join(dir, "node_key.json"), []byte("{}"), 0o600)
+		err = os.Mkdir(filepath.Join(dir, "data"), 0o700)
+	default:
+		err = os.WriteFile(filepath.Join(dir, "signer.json"), tg.File, 0o600)
+	}
+	return dir, cleanup, err
 }
 
 func cp(b []byte) []byte { return append([]byte{}, b...) }
@@ -562,19 +641,27 @@ func runCase(h History, r *rand.Rand) (res *caseResult) {
 		}
 		res.coq = append(res.coq, fmt.Sprintf("mk_case (OpExport %s %s) (ObBytes %s)", fileT, passT, obs))
 		if h.Op == "export-import" && o.class == "ok" {
-			dir2, err := os.MkdirTemp("", "c19-imp-")
+			dir2, cleanup2, err := prepareTarget(h.Target, dir)
 			if err != nil {
 				res.err = err
 				return
 			}
-			defer os.RemoveAll(dir2)
+			defer cleanup2()
+			over := h.Target.Kind != "" && h.Target.Kind != "fresh"
+			loses := func(sig, what string) {
+				if over {
+					res.fail("export-import-over-existing-file-loses-key", fmt.Sprintf("export followed by import over a path holding %s: %s", h.Target.Kind, what))
+				} else {
+					res.fail(sig, what)
+				}
+			}
 			io := safeImport(dir2, pt, h.Pass2)
 			if io.class == "panic" {
 				res.fail("panic-other", "ImportPrivateKey panicked: "+io.msg)
 			}
 			pass2T := passTerm(h.Pass2, b)
 			if io.class != "ok" {
-				res.fail("export-import-fails", "ImportPrivateKey refuses what ExportPrivateKey returned: "+io.msg)
+				loses("export-import-fails", "ImportPrivateKey refuses what ExportPrivateKey returned: "+io.msg)
 				res.coq = append(res.coq, fmt.Sprintf("mk_case (OpImport %s %s [] []) (ObFile %s)", nm.bytesTerm(pt), pass2T, outcomeTerm(io, "")))
 				return
 			}
@@ -585,7 +672,7 @@ func runCase(h History, r *rand.Rand) (res *caseResult) {
 			}
 			d2 := describe(t2, false)
 			if d2.state != "data" {
-				res.fail("export-import-fails", "ImportPrivateKey wrote a file that does not parse")
+				loses("export-import-fails", "ImportPrivateKey wrote a file that does not parse")
 				return
 			}
 			// label the imported file's ciphertext by decrypting it with the harness's own AES-GCM
@@ -598,19 +685,19 @@ func runCase(h History, r *rand.Rand) (res *caseResult) {
 			file2T := fmt.Sprintf("(FData (mk_kd %s %s %s %s))", ct2T, vgen.BytesN(d2.nonce), nm.bytesTerm(d2.pub), vgen.BytesN(d2.salt))
 			res.coq = append(res.coq, fmt.Sprintf("mk_case (OpImport %s %s %s %s) (ObFile (Ok %s))", nm.bytesTerm(pt), pass2T, vgen.BytesN(d2.salt), vgen.BytesN(d2.nonce), file2T))
 			if len(d2.salt) != 16 || len(d2.nonce) != 12 {
-				res.fail("import-salt-nonce-size", "ImportPrivateKey wrote a salt/nonce of unexpected size")
+				res.fail("import-salt-nonce-size", fmt.Sprintf("ImportPrivateKey wrote a %d-byte salt / %d-byte nonce (want 16 / 12; path held: %s)", len(d2.salt), len(d2.nonce), h.Target.Kind))
 			}
 			s2, lo := safeLoad(dir2, h.Pass2)
 			obs2 := outcomeTerm(lo, "")
 			sigOK, addrOK := false, false
 			if lo.class != "ok" {
-				res.fail("export-import-fails", "the imported file does not load with the import passphrase: "+lo.msg)
+				loses("export-import-fails", "the imported file does not load with the import passphrase: "+lo.msg)
 			} else {
 				f := facts(s2, msg, [][]byte{b.priv})
 				sigOK, addrOK = f.sigOK, f.addrOK
 				obs2 = fmt.Sprintf("(Ok (mk_signer %s %s))", nm.bytesTerm(f.privIs), nm.bytesTerm(f.pub))
 				if f.privIs == nil || !bytes.Equal(f.pub, b.priv[32:64]) || !f.sigOK || !f.addrOK {
-					res.fail("export-import-changes-key", "export followed by import does not preserve the key")
+					loses("export-import-changes-key", "export followed by import does not preserve the key")
 				}
 			}
 			res.coq = append(res.coq, fmt.Sprintf("mk_case (OpLoad %s %s) (ObLoad %s %s %s)", file2T, pass2T, obs2, vgen.Bool(sigOK), vgen.Bool(addrOK)))
@@ -1055,6 +1142,7 @@ func genHistory(r *rand.Rand, seed int64, c int, b *baseInfo, others []*baseInfo
 			h.Mut = Mut{Kind: "none"}
 			h.Pass = cp(b.pass)
 		}
+		genTarget(r, targetKinds[r.Intn(len(targetKinds))], &h, others)
 	}
 	return h
 }
@@ -1204,6 +1292,22 @@ func TestVerif(t *testing.T) {
 			}
 			jobs = append(jobs, job{h: h})
 		}
+		// systematic: export from a current-format and from a legacy file, then import OVER every kind of
+		// pre-existing content at the target path (incl. the source path itself), then load
+		if os.Getenv("VERIF_NO_CORPUS") == "" {
+			k := 0
+			for _, src := range []*baseInfo{bases[1], bases[len(bases)-2]} {
+				for _, kind := range targetKinds {
+					c := e.N + k
+					k++
+					r := caseRng(e.Seed, c)
+					h := History{Seed: e.Seed, Case: c, BaseKind: src.kind, SavePass: cp(src.pass), BaseFile: cp(src.text), Mut: Mut{Kind: "none"},
+						Op: "export-import", Pass: cp(src.pass), Pass2: genPass(r, []int{0, 1, 8, 33}[r.Intn(4)])}
+					genTarget(r, kind, &h, bases)
+					jobs = append(jobs, job{h: h})
+				}
+			}
+		}
 	}
 
 	// replayed / corpus histories carry their own base file: label it
@@ -1274,6 +1378,13 @@ func TestVerif(t *testing.T) {
 		h := cr.hist
 		res.Evaluations++
 		res.Count("op:" + h.Op)
+		if h.Op == "export-import" {
+			tk := h.Target.Kind
+			if tk == "" {
+				tk = "fresh"
+			}
+			res.Count("import-target:" + tk)
+		}
 		res.Count("base:" + h.BaseKind)
 		res.Count("mutation:" + h.Mut.Kind)
 		res.Count("region:" + cr.region)
@@ -1299,7 +1410,7 @@ func TestVerif(t *testing.T) {
 		}
 	}
 	res.Distinct = len(distinct)
-	res.Rule = "one history = a key file made by the real code (Create / Import of a 64- or 96-byte key / hand-built legacy salt-less file) under a passphrase of 0,1,31,32,33,4096 or a random number of bytes; a corruption (single-byte substitution by '=', another base64 character or an arbitrary byte; truncation; a decoded field replaced, shortened, extended, bit-flipped, emptied, nulled or swapped with another key's; arbitrary text; missing file); a passphrase (the right one, empty, prefix, extension, one bit flipped, same first 32 bytes, unrelated); an operation (load, export, export+import+load, create+load). thorough tier: additionally every position x 3 replacement classes and every truncation of one base per shard. non-trivial = the file still parses (the operation reaches key derivation) and it is not the plain right-passphrase round trip; distinct = distinct (base kind, mutation kind, region of the file hit, passphrase relation, operation, passphrase length classes, outcome class)"
+	res.Rule = "one history = a key file made by the real code (Create / Import of a 64- or 96-byte key / hand-built legacy salt-less file) under a passphrase of 0,1,31,32,33,4096 or a random number of bytes; a corruption (single-byte substitution by '=', another base64 character or an arbitrary byte; truncation; a decoded field replaced, shortened, extended, bit-flipped, emptied, nulled or swapped with another key's; arbitrary text; missing file); a passphrase (the right one, empty, prefix, extension, one bit flipped, same first 32 bytes, unrelated); an operation (load, export, create+load, export+import+load where the import path is empty or already holds a current-format file saved under the same / another passphrase, a legacy salt-less file, a file with the salt removed, a corrupted, truncated or empty file, {} / null, unrelated files, or is the source path itself). thorough tier: additionally every position x 3 replacement classes and every truncation of one base per shard. non-trivial = the file still parses (the operation reaches key derivation) and it is not the plain right-passphrase round trip; distinct = distinct (base kind, mutation kind, region of the file hit, passphrase relation, operation, passphrase length classes, outcome class)"
 	res.Cases = len(cases)
 	header := "From Coq Require Import String NArith List Bool.\nFrom Verif Require Import Model.KeyFile Check.KeyFileCheck."
 	path := filepath.Join(e.Out, "cases_C19.v")
